@@ -24,7 +24,7 @@ package meta
 // ---- C43: a component's recorded mode changes only when the switch succeeded.
 //@ callrule c43_meta_collaborators in (*DB).SetMode
 //@   property C43
-//@   callee (*metabase.DB).Close, (*metabase.DB).Init, (mode.Mode).String
+//@   callee (*metabase.DB).Init, (mode.Mode).String
 //@   pureeffect
 // (the mode predicates are bit tests of the mode value: the same question gets the same answer)
 //@ callrule c43_mode_read_only_bit in (*DB).SetMode
@@ -45,6 +45,20 @@ package meta
 //@ func (*DB).Open
 //@   property C43
 //@   ensures [mode_recorded_only_by_a_successful_read_only_open] db.mode == old(db.mode) || (err == nil && readOnly && db.mode == mode.ReadOnly)
+// A failed switch leaves the metabase as usable as its recorded (old) mode says: if the
+// database had to be closed for the switch and the new open failed, it is opened again the way
+// it was - otherwise the mode says READ_ONLY / READ_WRITE with no database behind it and the
+// next read dereferences nil.
+//@ ghost pred closedForTheSwitch() bool
+//@ ghost pred openedAgainAsBefore() bool
+//@ callrule c43_meta_closed_for_the_switch in (*DB).SetMode
+//@   property C43
+//@   callee (*metabase.DB).Close
+//@   pureeffect
+//@   defines (err == nil) == closedForTheSwitch()
+//@ func (*DB).SetMode
+//@   property C43
+//@   ensures [failed_switch_does_not_leave_the_database_closed] err != nil && closedForTheSwitch() ==> openedAgainAsBefore()
 //@ func (*DB).SetMode
 //@   property C43
 //@   ensures [recorded_mode_is_the_new_one_on_success] err == nil ==> db.mode == m
